@@ -70,45 +70,60 @@ def sequential_items(rng, tier):
     return [{"id": "aseq%d" % j, "module": mod, "script": [INST] + calls[j:j + 300]} for j in range(0, len(calls), 300)]
 
 
+FLAVS = [("8", "i32", "8"), ("16", "i32", "16"), ("32", "i32", ""), ("8l", "i64", "8"), ("16l", "i64", "16"), ("32l", "i64", "32"), ("64", "i64", "")]
+WIDTH = {"8": 8, "16": 16, "32": 32, "8l": 8, "16l": 16, "32l": 32, "64": 64}
+CELL = {8: 64, 16: 72, 32: 80, 64: 88}
+
+
 def thread_module():
-    fn = lambda p, r, body: {"type": None, "p": p, "r": r, "body": body}
-    types = [{"p": ["i32"], "r": ["i32"]}, {"p": ["i32", "i32"], "r": []}, {"p": ["i32", "i32"], "r": ["i32"]}, {"p": ["i32", "i32", "i32"], "r": ["i32"]}]
+    """Every atomic flavour behind one uniform signature (addr i32, v i64, e i64) -> i64, so that the thread driver can
+    call them through one table: ld/st/add/xchg/cas x {i32: 8,16,32; i64: 8,16,32,64}."""
+    types = [{"p": ["i32", "i64", "i64"], "r": ["i64"]}]
     g = lambda k: ["local.get", k]
-    funcs = [{"type": 0, "locals": [], "body": [g(0), ["i32.atomic.load", 2, 0], ["end"]]},
-             {"type": 1, "locals": [], "body": [g(0), g(1), ["i32.atomic.store", 2, 0], ["end"]]},
-             {"type": 2, "locals": [], "body": [g(0), g(1), ["i32.atomic.rmw.add", 2, 0], ["end"]]},
-             {"type": 2, "locals": [], "body": [g(0), g(1), ["i32.atomic.rmw.xchg", 2, 0], ["end"]]},
-             {"type": 3, "locals": [], "body": [g(0), g(1), g(2), ["i32.atomic.rmw.cmpxchg", 2, 0], ["end"]]}]
-    return {"types": types, "funcs": funcs, "memory": {"min": 1, "max": 1, "shared": True},
-            "exports": [{"name": n, "kind": "func", "idx": k} for k, n in enumerate(["ld", "st", "add", "xchg", "cas"])]}
+    funcs, exports = [], []
+    for tag, t, w in FLAVS:
+        al = {"8": 0, "16": 1, "32": 2, "": 2 if t == "i32" else 3}[w]
+        down = [["i32.wrap_i64"]] if t == "i32" else []
+        up = [["i64.extend_i32_u"]] if t == "i32" else []
+        sfx = "_u" if w else ""
+        rm = "rmw" + w
+        body = {"ld": [g(0), ["%s.atomic.load%s%s" % (t, w, sfx), al, 0]] + up,
+                "st": [g(0), g(1)] + down + [["%s.atomic.store%s" % (t, w), al, 0], ["i64.const", b64(0)]],
+                "add": [g(0), g(1)] + down + [["%s.atomic.%s.add%s" % (t, rm, sfx), al, 0]] + up,
+                "xchg": [g(0), g(1)] + down + [["%s.atomic.%s.xchg%s" % (t, rm, sfx), al, 0]] + up,
+                "cas": [g(0), g(2)] + down + [g(1)] + down + [["%s.atomic.%s.cmpxchg%s" % (t, rm, sfx), al, 0]] + up}
+        for op in ("ld", "st", "add", "xchg", "cas"):
+            funcs.append({"type": 0, "locals": [], "body": body[op] + [["end"]]})
+            exports.append({"name": op + tag, "kind": "func", "idx": len(funcs) - 1})
+    return {"types": types, "funcs": funcs, "memory": {"min": 1, "max": 1, "shared": True}, "exports": exports}
 
 
 def thread_program(rng, nt, nops):
-    """Distinguishing operands: distinct bits for add, unique tokens (bit 29 set) for store/xchg/cas."""
+    """Distinguishing operands within one access width: unique tokens for store/xchg/cas (as far as the width allows), +1 / +3 adds."""
     lines, tok = [], 0
-    bits = {64: list(range(0, 24)), 128: list(range(0, 24))}
-    for a in bits:
-        rng.shuffle(bits[a])
+    tags = rng.sample([f[0] for f in FLAVS], 2)
     seen = {t: [0] for t in range(nt)}
     for t in range(nt):
         for k in range(nops):
-            a = rng.choice([64, 64, 128])
+            tag = rng.choice(tags)
+            w = WIDTH[tag]
+            a = CELL[w]
+            mod = 1 << min(w, 30)
             r = rng.random()
-            if r < 0.45 and bits[a]:
-                lines.append((t, "add", a, 1 << bits[a].pop(), 0))
-            elif r < 0.6:
-                lines.append((t, "ld", a, 0, 0))
+            if r < 0.35:
+                lines.append((t, "add" + tag, a, rng.choice([1, 3]), 0))
+            elif r < 0.5:
+                lines.append((t, "ld" + tag, a, 0, 0))
             else:
                 tok += 1
-                v = (1 << 29) | (tok << 8)
-                if r < 0.72:
-                    lines.append((t, "st", a, v, 0))
-                elif r < 0.86:
-                    lines.append((t, "xchg", a, v, 0))
+                v = (tok * 7 + 1) % mod
+                if r < 0.65:
+                    lines.append((t, "st" + tag, a, v, 0))
+                elif r < 0.85:
+                    lines.append((t, "xchg" + tag, a, v, 0))
                 else:
-                    lines.append((t, "cas", a, v, rng.choice(seen[t])))
+                    lines.append((t, "cas" + tag, a, v, rng.choice(seen[t])))
                 seen[t].append(v)
-    # interleave the file order per thread index k (the driver runs each thread's lines in order)
     return lines
 
 
@@ -125,13 +140,15 @@ def history(out, hidx, lines):
             continue
         k = kcount.get(r["t"], 0)
         kcount[r["t"]] = k + 1
-        op = {"ld": "load", "st": "store", "cas": "cmpxchg"}.get(r["op"], r["op"])
+        base = r["op"].rstrip("0123456789l")
+        tag = r["op"][len(base):]
+        op = {"ld": "load", "st": "store", "cas": "cmpxchg"}.get(base, base)
         recs.append({"h": hidx, "id": len(recs), "t": r["t"], "k": k, "op": op, "a": r["a"], "v": r["v"], "e": r["e"], "old": r["old"],
-                     "tb": r["tb"], "te": r["te"], "mem": []})
+                     "tb": r["tb"], "te": r["te"], "mem": [], "mod": 1 << min(WIDTH[tag], 30)})
     if final is None:
         return None
-    recs.append({"h": hidx, "id": 0, "t": 0, "k": 0, "op": "final", "a": 0, "v": 0, "e": 0, "old": 0, "tb": 0, "te": 0,
-                 "mem": [[64, final["m64"]], [128, final["m128"]]]})
+    recs.append({"h": hidx, "id": 0, "t": 0, "k": 0, "op": "final", "a": 0, "v": 0, "e": 0, "old": 0, "tb": 0, "te": 0, "mod": 1,
+                 "mem": [[64, final["c8"]], [72, final["c16"]], [80, final["c32"] % (1 << 30)], [88, final["c64"] % (1 << 30)]]})
     return recs
 
 
@@ -208,6 +225,17 @@ def main():
                 v.deviation("threads:%s:not-linearizable" % name, {"threads": progs[j][0], "history": [r for r in hist[bad] if r["op"] != "final"][:40],
                                                                    "final": hist[bad][-1]["mem"]})
         # 4. the big-endian configuration: a completed atomic store racing with a mutex-protected RMW must survive
+        # 4a. hammer: 4 threads x N exchanges / additions on one cell, per flavour: conservation laws that follow from atomicity
+        for name in ("le", "be"):
+            rc, so, se = run([exes[name], "hammer", "4", "20000" if tier == "quick" else "200000"], timeout=900)
+            for l in so.splitlines():
+                try:
+                    hm = json.loads(l)
+                except ValueError:
+                    continue
+                stress.setdefault(name + "-hammer", []).append(hm)
+                if hm["lost"] or hm["bad_final"]:
+                    v.deviation("hammer:%s:%s" % (name, hm["op"]), hm)
         for name in ("le", "be"):
             rc, so, se = run([exes[name], "stress", "2", "40" if tier == "quick" else "400"], timeout=600)
             try:
